@@ -564,6 +564,15 @@ func (s *Server) RawClients(http2 bool, opts ...connect.ClientOption) *ClientSet
 	return NewClientSet(s.raw1, s.H1.URL, opts...)
 }
 
+// RawHTTPClient returns the untapped HTTP client and base URL.
+func (s *Server) RawHTTPClient(http2 bool) (*http.Client, string) {
+	s.RawClients(http2) // make sure the raw clients exist
+	if http2 {
+		return s.raw2, s.H2.URL
+	}
+	return s.raw1, s.H1.URL
+}
+
 // Close stops both servers.
 func (s *Server) Close() {
 	s.c1.CloseIdleConnections()
